@@ -125,12 +125,25 @@ def make(targets, timeout=1800):
     lock = _flock()
     try:
         ensure_makefile()
+        regenerate_tables()
         p = subprocess.run(
             ["timeout", str(timeout), "make", "-j%d" % NPROC] + list(targets),
             cwd=COQ, stdout=subprocess.PIPE, stderr=subprocess.STDOUT, text=True)
         return p.returncode == 0, p.stdout
     finally:
         lock.close()
+
+
+TRANSLATOR_STATUS = {}
+
+
+def regenerate_tables():
+    """coq/Generated/Tables.v from the repository's current source (fail-closed)."""
+    from . import translate
+    try:
+        TRANSLATOR_STATUS.update(translate.regenerate(REPO))
+    except Exception as e:  # never let the translator itself decide a verdict
+        TRANSLATOR_STATUS["error"] = repr(e)
 
 
 def scan_forbidden():
@@ -428,6 +441,15 @@ def run_check(prop: Prop, tier: str, seed: int) -> int:
         if not ok_proof:
             m = re.search(r'File "\./([^"]+)", line (\d+)', out_proof)
             broken_thm = "%s:%s" % (m.group(1), m.group(2)) if m else "Properties/%s.v" % pid
+            if m:
+                try:
+                    src = open(os.path.join(COQ, m.group(1))).read().split("\n")[:int(m.group(2))]
+                    names = re.findall(r"^\s*(?:Theorem|Lemma|Example|Corollary|Definition|Fixpoint)\s+([A-Za-z0-9_']+)",
+                                       "\n".join(src), re.M)
+                    if names:
+                        broken_thm = "theorem %s (%s)" % (names[-1], broken_thm)
+                except OSError:
+                    pass
             log("proof obligations of %s no longer check (%s)" % (pid, broken_thm))
         bad_assump = [n for n, a in assump.items()
                       if not (a.startswith("Closed under the global context")
@@ -437,6 +459,7 @@ def run_check(prop: Prop, tier: str, seed: int) -> int:
         cov["theorems"] = [dict(t, assumptions=assump.get(t["name"], "")) for t in thms]
         cov["checker_cmd"] = "make -C coq Properties/%s.vo (coqc 8.16.1, full .vo build) + Print Assumptions per theorem" % pid
         cov["trusted_base"] = list(prop.trusted_base)
+        cov["translator"] = dict(TRANSLATOR_STATUS)
         if forb:
             cov["forbidden_constructs"] = forb
         if bad_assump:
